@@ -84,7 +84,7 @@ func TestVerif_C11(t *testing.T) {
 	if r.Thorough() {
 		small = []int{0, 1, 2, 3, 4, 5, 8, 16, 33, 64}
 	}
-	nBig, nDirected := r.Pick(3, 14), r.Pick(60, 160)
+	nBig, nDirected := r.Pick(4, 14), r.Pick(60, 160)
 	r.SetRule(fmt.Sprintf("shard with and without write-cache: payload lengths %v with every request of the four modes (values 0..len+2) plus huge values, %d larger payloads with %d boundary-directed requests each; objects put through Shard.Put (also >128 KiB objects that become plain files) or planted as zstd / combined files in the blob storage; Shard.GetRangeStream, ReadRange, ReadPayloadRange, ReadObject, GetRangeStreamWithMetadataLookup with/without metabase lookup and header interception; undefined requests must get the blob storage's answer; then batches of 2..8 range reads with overlapping answer lifetimes (seeded schedule of issue / read chunk / abandon / close) and rounds of concurrent reads, judged by the same resolver; distinct = (write-cache on/off, api, format, length class, mode, request shape)", small, nBig, nDirected))
 	cnr, owner := verifkit.RandCID(r.Rand("ids", 0)), verifkit.RandUser(r.Rand("ids", 1))
 	k := 0
@@ -134,6 +134,8 @@ func TestVerif_C11(t *testing.T) {
 				l = 45<<10 + rng.IntN(40<<10)
 			case 1:
 				l = 130<<10 + rng.IntN(20<<10) // above the combined threshold: plain file
+			case 3:
+				l = 21<<10 + rng.IntN(80<<10) // a second incompressible one that is streamed from its file
 			}
 			p := vf11.Payload(r.Rand("bigpayload", b), l, b%2 == 0)
 			add("big", b, p, rng.IntN(3), func(o *vf11.Obj) []vf11.Req {
@@ -232,7 +234,7 @@ func TestVerif_C11(t *testing.T) {
 			}
 		}
 		// answers with overlapping lifetimes and concurrent requests (see vf11.Overlapped)
-		vf11.OverlapPhase(r, layer, 0, r.Pick(50, 300), r.Pick(2, 8), func(rng *rand.Rand) vf11.Call {
+		vf11.OverlapPhase(r, layer, 0, r.Pick(200, 800), r.Pick(2, 8), func(rng *rand.Rand) vf11.Call {
 			it := items[rng.IntN(len(items))]
 			if rng.IntN(2) == 0 { // larger payloads half of the time
 				it = items[len(items)-1-rng.IntN(3*nBig)]
